@@ -61,7 +61,8 @@ def inline_properties(repo: Repo, e: ast.AST, types: Dict[str, str]) -> ast.AST:
 def accepting_paths(fn: Func, repo: Optional[Repo] = None, types: Optional[Dict[str, str]] = None,
                     init_env=None) -> List[Tuple[flow.Path, List[Atom]]]:
     """Paths on which a boolean function may return a truthy value, each with the atoms that hold
-    there (path condition + what the returned expression being truthy implies)."""
+    there (path condition + what the returned expression being truthy implies). A path whose
+    condition leaves a disjunction open (`not (A and B)`) is reported once per case."""
     out = []
     for p in flow.paths(fn.node, init_env):
         if p.kind != "return" or p.value is None:
@@ -69,7 +70,15 @@ def accepting_paths(fn: Func, repo: Optional[Repo] = None, types: Optional[Dict[
         v = p.value
         if isinstance(v, ast.Constant) and not v.value:
             continue
-        atoms = list(p.facts())
+        for case in p.fact_cases():
+            out.append((p, _atoms_for(p, case, repo, types)))
+    return out
+
+
+def _atoms_for(p, case, repo, types):
+    if True:
+        v = p.value
+        atoms = list(case)
         vv = inline_properties(repo, v, types) if repo is not None and types else v
         if not (isinstance(vv, ast.Constant) and vv.value):
             atoms += flow.implied(_strip_bool(vv), True)
@@ -80,8 +89,7 @@ def accepting_paths(fn: Func, repo: Optional[Repo] = None, types: Optional[Dict[
             for a, pol in atoms:
                 extra += flow.implied(_strip_bool(a), pol)
             atoms += extra
-        out.append((p, atoms))
-    return out
+        return atoms
 
 
 def _strip_bool(e: ast.AST) -> ast.AST:
